@@ -184,6 +184,8 @@ type Instance struct {
 	SlowWriter bool
 	// FailWrites makes every Write of the in-process ResponseWriter fail (the client hung up).
 	FailWrites bool
+	// ReqTweak, when non-nil, may alter the request (headers, ContentLength, Body) just before it is served.
+	ReqTweak func(*http.Request)
 }
 
 // brokenWriter is a ResponseWriter whose peer has gone away.
@@ -294,6 +296,9 @@ func (i *Instance) Do(ctx context.Context, method, path, rawQuery string, body [
 	req := httptest.NewRequest(method, url, rd)
 	if ctx != nil {
 		req = req.WithContext(ctx)
+	}
+	if i.ReqTweak != nil {
+		i.ReqTweak(req)
 	}
 	w := httptest.NewRecorder()
 	if i.FailWrites {
